@@ -229,6 +229,10 @@ func (s IndexStep) Apply(val Value) (Value, error) {
 	// apply the correct marks for the result.
 	has, _ := val.HasIndex(s.Key).Unmark()
 	if !has.IsKnown() {
+		if val.Type().IsTupleType() {
+			// The element type of a tuple depends on the index.
+			return DynamicVal, nil
+		}
 		return UnknownVal(val.Type().ElementType()), nil
 	}
 	if !has.True() {
